@@ -184,6 +184,101 @@ def history_search(rep, rng, tier):
             sec['distinct_nontrivial'] += 1
 
 
+def tail_violation(name, call, end, t):
+    """The property on ONE rendering `t` of decoder `name` whose END record is `end` (stateless statement)."""
+    e, ret = end[0], end[1]
+    if t is None or not t.startswith(call):
+        return 'call part changed with the END record: %r' % (t,)
+    tail = t[len(call):]
+    if e != 0:
+        exp = 'errno: %s(%d)' % (errno.errorcode[e], e) if e in errno.errorcode else 'errno: %d' % e
+        if not re.fullmatch(r', ' + re.escape(exp) + r'( path: ".*")?', tail):
+            return 'error word %d, return word %d: result part is %r, expected %r' % (e, ret, tail, ', ' + exp)
+        return None
+    if 'errno' in tail:
+        return 'error word 0 (return word %#x) but result part is %r' % (ret, tail)
+    allowed = renderings(ret) | (renderings(end[2]) if name == 'BSC_pipe' else set())
+    shown = re.sub(r'"[^"]*"', '', tail)
+    for tok in re.findall(r'-?0x[0-9a-f]+|-?\d+|True|False', shown):
+        if tok not in allowed:
+            return 'result part %r shows %s, END return word is %d (%#x)' % (tail, tok, ret, ret)
+    return None
+
+
+def collision_pairs(rng):
+    """Pairs of (error word, return word) that a careless memo / packing / hashing of the two END words would confuse."""
+    out = []
+    for e in (2, 3, 12, 22, 29, 35):
+        for r in (0, 0x4000, 77, rng.randrange(1, 1 << 20)):
+            out += [((e, r), (0, (e << 32) | r)), ((0, (e << 32) | r + 1), (e, r + 1)),
+                    ((e, r), (0, (e << 16) | (r & 0xffff))), ((e, r), (0, (e << 8) | (r & 0xff))),
+                    ((e, r), (r, e)) if r else ((e, 5), (5, e)),
+                    ((e, r), (e + (1 << 32), r)), ((e, r), (e, r + (1 << 32))), ((e, r), (e, r | (1 << 63))),
+                    ((e, r), (0, e + r)), ((e, r), (0, e ^ r)), ((e, r), (e ^ r, 0)), ((0, r + e), (e, r)),
+                    ((e, r), (0, int('%d%d' % (e, r)))), ((int('%d%d' % (e, r // 10 + 1)), r % 10), (e, int('%d%d' % (r // 10 + 1, r % 10))))]
+    out += [((0, 0), (0, 1 << 32)), ((0, 1), (0, (1 << 64) - 1)), ((1, 0), (0, 1)), ((0, 0), (1 << 32, 0)), ((1 << 32, 7), (0, 7)),
+            ((0, 7), (1 << 63, 7)), ((0, (1 << 63)), (0, 0)), ((0, -1 % (1 << 64)), (1, 0))]
+    return out
+
+
+def collision_search(rep, rng, tier):
+    """The result part of a trace is a function of ITS END record: it may not be taken over from another END record seen
+    earlier in the process whose two words merely pack / add / concatenate to the same thing."""
+    sec = rep.section('result-collisions')
+    sec['rule'] = ('failing-input search on the real code: for one decoder per distinct result shape (success label x format), and '
+                   'for pairs of decoders of different shapes, END records are rendered in ONE process in pairs whose (error, return) '
+                   'words collide under packing (e<<32|r, e<<16|r, e<<8|r), swapping, 32/63-bit truncation, sum, xor and decimal '
+                   'concatenation; every rendering is checked against the stateless statement of the property')
+    lookups = [['/p/one', 11], ['/q/two', 22], ['/r/three', 33], ['/s/4', 44], ['/t/5', 55], ['/u/6', 66]]
+    names = [n for n in bsd_names(only_supported=False) if n not in EXEMPT]
+    shapes = {}
+    for n in names:
+        b = find_base(n, lookups, [0, 9, 0, 0])
+        if b is None:
+            continue
+        t = render(n, b, [0, 0x51f3, 0x6a2d, 0x7b1c], lookups)
+        sp = D.split_call(t) if t else None
+        if sp is None:
+            continue
+        key = re.sub(r'"[^"]*"', '""', sp[2]).replace(hex(0x51f3), 'H').replace(str(0x51f3), 'D')
+        shapes.setdefault(key, []).append((n, b, t[:len(t) - len(sp[2])]))
+    reps = [v[0] for v in shapes.values()] + [v[-1] for v in shapes.values() if len(v) > 1]
+    if tier == 'quick' and len(reps) > 24:
+        reps = reps[:12] + rng.sample(reps[12:], 12)
+    pairs = collision_pairs(rng)
+    bad = set()
+    for (n, b, call) in reps:
+        for a, c in pairs:
+            for (e, r) in (a, c):
+                if not (0 <= e < 1 << 64 and 0 <= r < 1 << 64):
+                    continue
+                end = [e, r, 0x6a2d, 0x7b1c]
+                sec['cases'] += 1
+                v = tail_violation(n, call, end, render(n, b, end, lookups))
+                if v and n not in bad:
+                    bad.add(n)
+                    rep.add_failure('result:%s:follows-an-earlier-end-record' % n,
+                                    'after END (error, return) = %s had been rendered in the same process, END %s of %s: %s'
+                                    % (a if (e, r) == c else c, (e, r), n, v),
+                                    {'section': 'result-collisions', 'decoder': n, 'start': b, 'pair': [list(a), list(c)]})
+        if n not in bad:
+            sec['distinct_nontrivial'] += 1
+    # the same END record through decoders of different shapes, back to back
+    for i in range(len(reps) - 1):
+        (n1, b1, c1), (n2, b2, c2) = reps[i], reps[i + 1]
+        for e, r in ((0, 0x7001 + i), (13, 0x7001 + i), (0, (13 << 32) | (0x7001 + i))):
+            for (n, b, call) in ((n1, b1, c1), (n2, b2, c2), (n1, b1, c1)):
+                end = [e, r, 0x6a2d, 0x7b1c]
+                sec['cases'] += 1
+                v = tail_violation(n, call, end, render(n, b, end, lookups))
+                if v and n not in bad:
+                    bad.add(n)
+                    rep.add_failure('result:%s:follows-an-earlier-end-record' % n,
+                                    'END %s rendered by %s and %s back to back: %s' % ((e, r), n1, n2, v),
+                                    {'section': 'result-collisions', 'decoder': n, 'start': b, 'pair': [[e, r], [e, r]],
+                                     'other': n2 if n == n1 else n1})
+
+
 def correspondence(rep, rng, tier):
     names = bsd_names()
     D.section_decoders(rep, rng, tier, names=names, name='decoders-bsd')
@@ -202,6 +297,7 @@ def correspondence(rep, rng, tier):
     sec['dist'] = {'bsd_decoders': len(names), 'exempt_present': len([n for n in names if n in EXEMPT])}
     _matching(rep, rng, tier)
     history_search(rep, rng, tier)
+    collision_search(rep, rng, tier)
 
 
 def _matching(rep, rng, tier):
@@ -214,6 +310,22 @@ def replay(path):
     with open(path) as fd:
         r = json.load(fd)
     rp = r['replay']
+    if rp.get('section') == 'result-collisions':
+        lookups = [['/p/one', 11], ['/q/two', 22], ['/r/three', 33], ['/s/4', 44], ['/t/5', 55], ['/u/6', 66]]
+        n, b = rp['decoder'], rp['start']
+        t0 = render(n, b, [0, 0x51f3, 0x6a2d, 0x7b1c], lookups)
+        call = t0[:len(t0) - len(D.split_call(t0)[2])]
+        bad = 0
+        for e, r in rp['pair'] + rp['pair'][:1]:
+            t = render(n, b, [e, r, 0x6a2d, 0x7b1c], lookups)
+            v = tail_violation(n, call, [e, r, 0x6a2d, 0x7b1c], t)
+            print('END (error=%d, return=%#x) ->' % (e, r), t, '' if not v else '<- ' + v)
+            bad += bool(v)
+        if bad:
+            print(f'VIOLATION property=C10 replay={path}')
+            return 1
+        print('no violation on this input')
+        return 0
     if rp.get('section') == 'results':
         res = result_oracle(rp['decoder'])
         print('oracle:', res)
